@@ -326,6 +326,9 @@ func runC16(ctx *Ctx) *Result {
 
 // coverage floors: a generator that stops reaching the fix sites makes the check vacuous
 func c16Floors(res *Result, ntrees int) {
+	if len(res.Violations) > 0 {
+		return // a missed floor next to a violation is explained by the violation
+	}
 	get := func(k string) int { n, _ := res.Distribution[k].(int); return n }
 	if res.DistinctNontrivial < ntrees/2 {
 		res.Broken = fmt.Sprintf("only %d of %d trees fired two or more fix kinds", res.DistinctNontrivial, ntrees)
